@@ -100,6 +100,49 @@ Definition act_seq_name (args : list pyval) : res pyval :=
 Definition act_create_seq (args : list pyval) : res pyval :=
   if list_has_str args "EXISTS" then Raise TypeError else Ok PNone.
 
+(* TableSpaces.get_tablespace_data(p_list[1:]) for the forms without properties *)
+Definition act_tablespace (args : list pyval) : res pyval :=
+  (* args = [CREATE; ...; name] *)
+  match args with
+  | _ :: second :: rest =>
+    do s2 <- as_str second;
+    do '(ty, temp) <-
+       (if String.eqb s2 "TABLESPACE" then Ok (PNone, false)
+        else if String.eqb (upper s2) "TEMPORARY" then Ok (PNone, true)
+        else match rest with
+             | third :: _ => do s3 <- as_str third; Ok (PStr s2, String.eqb (upper s3) "TEMPORARY")
+             | [] => Raise IndexError
+             end);
+    let name := last_val args in
+    match name with
+    | PDict _ => Unsupported "tablespace properties"
+    | _ => Ok (PDict [("tablespace_name", name); ("properties", PNone); ("type", ty); ("temporary", PBool temp)])
+    end
+  | _ => Raise IndexError
+  end.
+
+(* p_database_base for CREATE DATABASE id *)
+Definition act_database_base (args : list pyval) : res pyval :=
+  match args with
+  | [_; _; name] => match name with PDict _ => Unsupported "database_base clone" | _ => Ok (PDict [("database_name", name)]) end
+  | _ => Unsupported "database_base form"
+  end.
+
+(* p_create_schema for `c_schema id` and `c_schema IF NOT EXISTS id` (c_schema value None) *)
+Definition act_create_schema (args : list pyval) : res pyval :=
+  match args with
+  | [PNone; PStr name] =>
+      if String.eqb name "AUTHORIZATION" || String.eqb name "EXISTS" || String.eqb name "=" || String.eqb name "COMMENT" || String.eqb name "."
+      then Unsupported "create_schema: special word as name"
+      else Ok (PDict [("schema_name", PStr (replace name "`" ""))])
+  | [PNone; PStr a; PStr b; PStr x; PStr name] =>
+      if negb (String.eqb a "IF" && String.eqb b "NOT" && String.eqb x "EXISTS") then Unsupported "create_schema form"
+      else if String.eqb name "AUTHORIZATION" || String.eqb name "=" || String.eqb name "COMMENT" || String.eqb name "."
+      then Unsupported "create_schema: special word as name"
+      else Ok (PDict [("if_not_exists", PBool true); ("schema_name", PStr (replace name "`" ""))])
+  | _ => Unsupported "create_schema form"
+  end.
+
 Definition action (norm : bool) (prod : string) (args : list pyval) : res pyval :=
   match words prod with
   | lhs :: _ :: _ =>
@@ -116,6 +159,15 @@ Definition action (norm : bool) (prod : string) (args : list pyval) : res pyval 
             || startswith prod "expr -> expr CACHE" || String.eqb prod "expr -> expr NOORDER"
             || String.eqb prod "expr -> expr ORDER"
          then act_expression_seq args
+    else if String.eqb prod "expr -> CREATE TABLESPACE id" || String.eqb prod "expr -> CREATE id TABLESPACE id"
+            || String.eqb prod "expr -> CREATE id id TABLESPACE id" then act_tablespace args
+    else if String.eqb prod "database_base -> CREATE DATABASE id" then act_database_base args
+    else if String.eqb prod "create_database -> database_base" || String.eqb prod "expr -> create_database"
+            || String.eqb prod "expr -> create_schema" then
+      match args with [PDict d] => Ok (PDict d) | _ => Unsupported "unit production on a non-dict" end
+    else if String.eqb prod "c_schema -> CREATE SCHEMA" then Ok PNone
+    else if String.eqb prod "create_schema -> c_schema id" || String.eqb prod "create_schema -> c_schema IF NOT EXISTS id"
+         then act_create_schema args
     else Unsupported ("action " ++ prod)
   | _ => Unsupported ("action " ++ prod)
   end.
